@@ -21,10 +21,11 @@ import subprocess
 import time
 
 from .. import core, build, hrun, sandbox, smtpdrive
+from .. import shim as _shim
 from ..refmodel import smtpd_model as M
 
 PROP = "C08"
-QQREC = os.path.join(core.VERIF, "bin", "qq-rec")
+QQREC = _shim.tool("qq-rec")
 BODY = b"Subject: c08\r\n\r\nbody\r\n.\r\n"
 NONLOCAL_IP = b"10.9.8.7"
 
